@@ -195,6 +195,8 @@ pub open spec fn flat_of(s: Seq<&[u8]>) -> Seq<u8>
 impl<'a> Chunks<'a> {
     pub uninterp spec fn flat(&self) -> Seq<u8>;
     #[verifier::external_body]
+    pub fn of0() -> (r: Chunks<'a>) ensures r.flat() == Seq::<u8>::empty() { unimplemented!() }
+    #[verifier::external_body]
     pub fn of1(a: &'a [u8]) -> (r: Chunks<'a>) ensures r.flat() == a@ { unimplemented!() }
     #[verifier::external_body]
     pub fn of2(a: &'a [u8], b: &'a [u8]) -> (r: Chunks<'a>) ensures r.flat() == a@ + b@ { unimplemented!() }
@@ -751,8 +753,8 @@ pub trait CipherSuite: Sized {
     type Ksf: Ksf;
 }
 
-// ---------------------------------------------------------------------------------- serialization::Input (shim)
-/// `I2OSP(len(data), L1) || data`; the real module is checked by Kani (kani/leaf), this is its contract
+// ---------------------------------------------------------------------------------- serialization: spec of I2OSP
+/// (`Input` itself is extracted from src/serialization/mod.rs and verified; see contracts/serialization.vc)
 pub open spec fn i2osp(n: nat, l: nat) -> Seq<u8>
     decreases l
 {
@@ -763,56 +765,11 @@ pub open spec fn fits(n: nat, l: nat) -> bool
 {
     if l == 0 { n == 0 } else { fits(n / 256, (l - 1) as nat) }
 }
+/// Rust language guarantee: no object (hence no slice of bytes) is larger than isize::MAX bytes
 #[verifier::external_body]
-#[verifier::accept_recursive_types(L1)]
-#[verifier::accept_recursive_types(L2)]
-#[verifier::accept_recursive_types(L3)]
-pub struct Input<'a, L1: ArrayLength<u8>, L2: ArrayLength<u8> = U0, L3: ArrayLength<u8> = U0> { _p: PhantomData<(&'a (), L1, L2, L3)> }
-impl<'a, L1: ArrayLength<u8>, L2: ArrayLength<u8>, L3: ArrayLength<u8>> Input<'a, L1, L2, L3> {
-    /// the payload (for a label: opaque || label)
-    pub uninterp spec fn data(&self) -> Seq<u8>;
-    /// for labels: the two pieces (data() == data0() + data1())
-    pub uninterp spec fn data0(&self) -> Seq<u8>;
-    pub uninterp spec fn data1(&self) -> Seq<u8>;
-    #[verifier::external_body]
-    pub fn from(input: &'a [u8]) -> (r: Result<Input<'a, L1, L2>, ProtocolError>)
-        ensures
-            r is Ok <==> fits(input@.len(), L1::n()),
-            r is Ok ==> r->Ok_0.data() == input@,
-            r is Err ==> r->Err_0 == ProtocolError::<Infallible>::SerializationError,
-    { unimplemented!() }
-    #[verifier::external_body]
-    pub fn from_owned(input: GenericArray<u8, L2>) -> (r: Result<Input<'a, L1, L2>, ProtocolError>)
-        ensures
-            r is Ok <==> fits(L2::n(), L1::n()),
-            r is Ok ==> r->Ok_0.data() == input@,
-            r is Err ==> r->Err_0 == ProtocolError::<Infallible>::SerializationError,
-    { unimplemented!() }
-    /// (usize overflow of `opaque.len() + label.len()` is impossible for slices)
-    #[verifier::external_body]
-    pub fn from_label(opaque: &'a [u8], label: &'a [u8]) -> (r: Result<Input<'a, L1, U0, U2>, ProtocolError>)
-        ensures
-            r is Ok <==> fits(opaque@.len() + label@.len(), L1::n()),
-            r is Ok ==> r->Ok_0.data() == opaque@ + label@ && r->Ok_0.data0() == opaque@ && r->Ok_0.data1() == label@,
-            r is Err ==> r->Err_0 == ProtocolError::<Infallible>::SerializationError,
-    { unimplemented!() }
-    #[verifier::external_body]
-    pub fn iter(&self) -> (r: Chunks<'_>)
-        ensures r.flat() == i2osp(self.data().len(), L1::n()) + self.data()
-    { unimplemented!() }
-}
-impl<'a, L1: ArrayLength<u8>, L2: ArrayLength<u8>> Input<'a, L1, L2, U0> {
-    #[verifier::external_body]
-    pub fn to_array_2(&self) -> (r: [&[u8]; 2])
-        ensures r@[0]@ == i2osp(self.data().len(), L1::n()), r@[1]@ == self.data()
-    { unimplemented!() }
-}
-impl<'a, L1: ArrayLength<u8>, L2: ArrayLength<u8>> Input<'a, L1, L2, U2> {
-    #[verifier::external_body]
-    pub fn to_array_3(&self) -> (r: [&[u8]; 3])
-        ensures r@[0]@ == i2osp(self.data().len(), L1::n()), r@[1]@ == self.data0(), r@[2]@ == self.data1()
-    { unimplemented!() }
-}
+pub proof fn axiom_slice_len_isize(s: &[u8])
+    ensures s@.len() <= isize::MAX as nat
+{}
 
 // ---------------------------------------------------------------------------------- sequence lemmas (proved)
 pub broadcast proof fn seq_assoc(a: Seq<u8>, b: Seq<u8>, c: Seq<u8>)
